@@ -231,6 +231,29 @@ async fn run_matrix(seed: u64, i: u64) -> COut {
             out.findings.push(Finding::new(&["C18"], "catchup.made_live", format!("matrix case {i}: the member is live at the evaluation following the call without any heartbeat")));
         }
     }
+    // what the call stored lives on: the supplied tombstones (they are kept verbatim, also those at or below the supplied
+    // watermark) are collected one grace period later by the ordinary GC pass, which must leave the frontier and every
+    // plain entry alone
+    if out.findings.is_empty() && i % 2 == 0 {
+        if let Some(b) = view(&node.cc, &xc) {
+            tokio::time::advance(Duration::from_secs(3601)).await;
+            match catch(|| node.cc.verif_gc_keys_marked_for_deletion()) {
+                Err(p) => out.findings.push(Finding::new(&["C18", "C06"], "catchup.later_gc_panic", format!("matrix case {i}: the tombstone GC pass after the calls panicked: {p}"))),
+                Ok(()) => {
+                    out.c.inc("gc_passes_after_catch_up");
+                    if let Some(a) = view(&node.cc, &xc) {
+                        if (a.0, a.1) < (b.0, b.1) {
+                            out.findings.push(Finding::new(&["C18", "C04"], "catchup.later_gc_lowers_frontier", format!("matrix case {i}: one grace period after the catch-up calls the GC pass moved the copy's (gc, mv) from ({},{}) to ({},{})", b.0, b.1, a.0, a.1)));
+                        }
+                        let lost: Vec<&String> = b.2.iter().filter(|(k, e)| e.2 == 0 && !a.2.contains_key(*k)).map(|(k, _)| k).collect();
+                        if !lost.is_empty() {
+                            out.findings.push(Finding::new(&["C18", "C06"], "catchup.later_gc_drops_plain_entry", format!("matrix case {i}: the GC pass after the catch-up calls removed plain entries {lost:?}")));
+                        }
+                    }
+                }
+            }
+        }
+    }
     out
 }
 
